@@ -67,8 +67,12 @@ class KnownFindings:
 
     def __init__(self):
         self.known = []
-        path = os.path.join(VERIF, "findings", "known_findings.txt")
-        if os.path.exists(path):
+        paths = [os.path.join(VERIF, "findings", "known_findings.txt")]
+        if os.environ.get("VERIF_KNOWN_EXTRA"):      # development aid only (proposed entries)
+            paths.append(os.environ["VERIF_KNOWN_EXTRA"])
+        for path in paths:
+            if not os.path.exists(path):
+                continue
             for line in open(path):
                 line = line.strip()
                 if not line or line.startswith("#"):
